@@ -448,6 +448,60 @@ def r15_shared_value(c, facts, rule='C02.R15'):
                 if any(a.get('l') in T for a in ct['args'][2:]):
                     bad = True
     c.floor(R, 'evaluations whose result is cached in Context.refs', n, 1)
+    # ... while the annotations handed back with the value are those of *this* use (merged with the declaration's), on
+    # every successful return - never the ones cached with an earlier use
+    nret = 0
+    stale = False
+    # must-derivation: *every* definition reaching the returned annotations comes from the parameter
+    seeds = set(annp)
+    refs_ = {}
+    for _, blk in fn.blocks():
+        for st in blk['stmts']:
+            if st['s'] == 'assign' and st['rv']['r'] in ('ref', 'rawptr') and not st['place']['proj']:
+                refs_.setdefault(st['place']['l'], set()).add(st['rv']['place']['l'])
+    for b, t in fn.calls():
+        if any(a.get('l') in T for a in t['args']):
+            for a in t['args']:
+                if 'l' in a and a.get('ty', '').startswith('&mut') and 'Annotation' in a.get('ty', ''):
+                    seeds |= {x for x in refs_.get(a['l'], set()) if x > fn.mir['argc']}
+
+    def must(l, seen=()):
+        if l in seeds:
+            return True
+        if l in seen:
+            return False
+        defs = idx.get(l, [])
+        if not defs:
+            return False
+        for kind, bi, x in defs:
+            if kind in ('call', 'callfield'):
+                if not any('l' in a and must(a['l'], seen + (l,)) for a in x['args']):
+                    return False
+            elif kind in ('assign', 'field'):
+                rv = x['rv']
+                src = [rv['place']['l']] if rv['r'] in ('ref', 'rawptr', 'discr') else [o['l'] for o in MF.operands_of_rvalue(rv) if 'l' in o]
+                if not src or not any(must(y, seen + (l,)) for y in src):
+                    return False
+        return True
+    for b, blk in fn.blocks():
+        for st in blk['stmts']:
+            if st['s'] == 'assign' and st['place']['l'] == 0 and not st['place']['proj'] and st['rv']['r'] == 'aggr' and st['rv'].get('variant') == 'Ok' and st['rv']['ops'] and 'l' in st['rv']['ops'][0]:
+                for kind, bi, x in idx.get(st['rv']['ops'][0]['l'], []):
+                    if kind == 'assign' and x['rv']['r'] == 'aggr' and x['rv'].get('ak') == 'tuple' and len(x['rv']['ops']) == 2:
+                        nret += 1
+                        a1 = x['rv']['ops'][1]
+                        if 'l' in a1 and not must(a1['l']):
+                            stale = True
+        t = blk['term']
+        if t['t'] == 'call' and t['dest']['l'] == 0 and not t['dest']['proj'] and P.name_is((callee_of(t) or {}).get('def', ''), 'eval_any'):
+            nret += 1
+            if not any(a.get('l') in T for a in t['args'][2:]):
+                stale = True
+    c.floor(R, 'successful returns of eval_declaration', nret, 2)
+    if stale:
+        c.bad(R, 'eval_declaration:returned-annotations-not-of-this-use', 'eval_declaration returns a value together with annotations that do not derive from its `ann` parameter: a later use of a reference loses its own annotations (required, examples, ...) and inherits those cached with the first use')
+    else:
+        c.ok(R, {'eval_declaration': 'every successful return carries the use-site annotations', 'returns': nret})
     if bad:
         c.bad(R, 'eval_declaration:shared-value-evaluated-with-use-site-annotations', 'eval_declaration evaluates the value it caches for every use of a reference with the annotations of the use that comes first: `<@a `title: "T"`>` puts the title on component `a`, which every other use refers to')
     else:
